@@ -1,4 +1,5 @@
 import DaliVerif.Proofs.MemSeq
+import DaliVerif.Proofs.MemSeqStall
 import DaliVerif.Gen.MemSeqTables
 /-!
 # C10 — memory writes store exactly the data or fail loudly; never silently
@@ -130,6 +131,58 @@ theorem write_fault_loud (arg : AddrArg) (bank : Nat) (locs : List (Nat × MemTy
     (∃ e, out = .error e ∧ (e = .TypeError ∨ e = .ValueError ∨ e = .MemoryValueNotWriteable ∨
       e = .MemoryLocationNotWriteable ∨ e = .ResponseError ∨ e = .MemoryWriteFailure)) :=
   writeRaw_faults arg bank locs raw s f tr out h
+
+/-- **A unit that does not advance its DTR0** — on ONE write only (any one), on
+every data write but not on the lock-byte writes, on every frame (the unit that
+never advances): `MemUnit.stepSched sched` is the specification unit that on the
+frames selected by `sched` does everything as usual except advancing DTR0.  For
+ANY schedule, any unit (lock byte, unlock value, bank number, cells, stale
+registers arbitrary) and any value with consecutive locations that is not the
+lock byte itself, feedback checked: if `write_raw` returns normally, the unit's
+memory afterwards is the old one overwritten with exactly the bytes at exactly
+the locations.  So a write that went wrong because DTR0 stalled (bytes landing
+one location low) is never reported as success.  (`hlock`: when the bank is
+unlocked / re-locked, location 2 is its lock byte.) -/
+theorem write_stall_loud (sched : Nat → Bool) (i0 : Nat) (u : MemUnit) (dev : Bool) (a bank l : Nat)
+    (locs : List (Nat × MemType)) (raw : List Nat) (allowShort forceUnlock unlock : Bool)
+    (hdev : u.dev = dev)
+    (hchk : writeChecks locs raw.length allowShort forceUnlock = .ok unlock)
+    (hlock : unlock = true → u.bank.isLockCell 2 = true)
+    (hcont : locs.map (·.1) = List.range' l locs.length) (h255 : l + locs.length ≤ 255)
+    (hnl : ∀ x ∈ locs, u.bank.isLockCell x.1 = false)
+    (h : ((writeRaw (if dev then .devShort a else .gearShort a) bank locs raw allowShort forceUnlock false).run
+        (MemUnit.stepSched sched) (u, i0)).1 = .ok ()) :
+    ((writeRaw (if dev then .devShort a else .gearShort a) bank locs raw allowShort forceUnlock false).run
+        (MemUnit.stepSched sched) (u, i0)).2.1.bank.rw = writeAll ((locs.map (·.1)).zip raw) u.bank.rw :=
+  writeRaw_stall sched i0 u dev a bank l locs raw allowShort forceUnlock unlock hdev hchk hlock hcont h255 hnl h
+
+/-- every declared value has consecutive locations ending at or below 254, which is
+what `write_stall_loud` asks for -/
+theorem tables_consecutive :
+    DaliVerif.Gen.MemSeqTables.values.all (fun v =>
+      v.addrs == List.range' (v.addrs.headD 0) v.addrs.length &&
+      decide (v.addrs.headD 0 + v.addrs.length ≤ 255)) = true := by decide +kernel
+
+/-! non-vacuity of `write_stall_loud`: a lockable bank-1 style unit; without a stall the
+write succeeds, with DTR0 stalled on the first data write (frame 4) the second byte
+lands on location 3 and the write raises `MemoryWriteFailure` -/
+private def exUnit : MemUnit :=
+  { dev := false, addr := 5, clock := 0, dtr0 := 9, dtr1 := 7, dtr2 := 0, we := false,
+    bank := { number := 1, last := 20, impl := fun _ => true, access := fun _ => .rwLock,
+              live := fun _ _ => 0, rw := fun a => 100 + a, hasLock := true, hasLatch := false,
+              lockByte := 0xFF, snap := none },
+    advance := true, unlockValue := 0x55 }
+
+private def exLocs : List (Nat × MemType) := [(3, .NVM_RW_L), (4, .NVM_RW_L), (5, .NVM_RW_L)]
+
+example : ((writeRaw (.gearShort 5) 1 exLocs [11, 22, 33] false false false).run
+    (MemUnit.stepSched fun _ => false) (exUnit, 0)).1 = .ok () := by decide
+
+example : ((writeRaw (.gearShort 5) 1 exLocs [11, 22, 33] false false false).run
+    (MemUnit.stepSched fun k => k == 4) (exUnit, 0)).1 = .error .MemoryWriteFailure := by decide
+
+example : ((writeRaw (.gearShort 5) 1 exLocs [11, 22, 33] false false false).run
+    (MemUnit.stepSched fun k => k == 4) (exUnit, 0)).2.1.bank.rw 3 = 22 := by decide
 
 /-- the regenerated tables satisfy what the theorems ask of a value: locations
 fit a byte and are pairwise distinct; 27 values are writable -/
